@@ -161,6 +161,24 @@ def numeric_wrap_settings():
 INVALID_SETTINGS += numeric_wrap_settings()
 
 
+def cost_field_neighbours():
+    """cost fields whose characters are next to the valid ones: a non-digit in bcrypt's two-digit cost (only the
+    ones an arithmetic parser would read as a SMALL cost are listed: a logarithmic cost of 17 or more is hours),
+    scrypt/yescrypt N_log2 characters of 32 and more (N > UINT32_MAX; a 32-bit shift wraps them to small N)"""
+    out = []
+    salt22 = "abcdefghijklmnopqrstuu"
+    for tag in ("$2a$", "$2b$", "$2x$", "$2y$"):
+        for c in ("0<", "0=", "0/", "0.", "/4", ".4", "+4", "-4", "4", "004", "0x4", " 4", "4 "):
+            out.append(tag + c + "$" + salt22)
+    for ch in "WXYZabcdz":                       # N_log2 = 34.. : 2^(N_log2 - 32) would be cheap
+        out += ["$7$" + ch + "/..../....saltsalt", "$y$j" + ch + "5$saltsalt", "$gy$j" + ch + "5$saltsalt"]
+    out += ["$7$./..../....saltsalt", "$7$U/..../....saltsalt", "$7$V/..../....saltsalt"]      # N_log2 = 0, 32, 33
+    return out
+
+
+INVALID_SETTINGS += cost_field_neighbours()
+
+
 def ynum(v, minv):
     """yescrypt's variable-length numeral for small values (one character for v - minv <= 47, else two)"""
     v -= minv
@@ -195,6 +213,8 @@ def yescrypt_param_sweep(rng, full=False):
     for nl, r, p in ((8, 512, 1), (8, 511, 1), (9, 512, 2), (9, 256, 1), (9, 255, 1), (10, 384, 3), (10, 385, 3), (7, 1024, 1)):
         out.append(yescrypt_params(nl, r, p, 0, "$y$") + ysalt(rng, 8))
     out.append(yescrypt_params(8, 512, 1, 0, "$gy$") + ysalt(rng, 8))
+    # scrypt with r*p >= 2^14: PBKDF2's block counter passes 65535 (N = 4 keeps it at about a second)
+    out += ["$7$0/......2.." + salt(rng, 8), "$7$00......0.." + salt(rng, 8)]
     for nl in (4, 6, 8):
         for p in (1, 2, 4):
             out.append("$7$" + B64[nl] + "/...." + B64[p] + "...." + salt(rng, 6))       # scrypt N, r=1, p
